@@ -11,7 +11,9 @@ vars == <<d1, cs>>
 
 Awk == {"yes", "~", "2001-01-01", "1:30", "null", "", "x y", "é", "1e3", "0x1f", "a$b", "- x", "#c", "{", "'q'"}
 Strs == {GPrim("s", s) : s \in Awk}
-Nums == {GPrim("n", "7"), GPrim("n", "-3"), GPrim("n", "1.5"), GPrim("n", "18446744073709551615"), GPrim("n", "9223372036854775808")}
+\* (0 and 1: the numbers a bool-typed read must still refuse in every front-end)
+Nums == {GPrim("n", "7"), GPrim("n", "-3"), GPrim("n", "1.5"), GPrim("n", "18446744073709551615"), GPrim("n", "9223372036854775808"),
+         GPrim("n", "0"), GPrim("n", "1")}
 Scal == Strs \cup Nums \cup {GPrim("b", "true"), GPrim("b", "false"), GNil}
 ScalQ == {GPrim("s", "yes"), GPrim("s", ""), GPrim("s", "1e3"), GPrim("n", "-3"), GPrim("n", "1.5"), GPrim("b", "false"), GNil}
 Inner == {E1(K1("x"), v) : v \in ScalQ} \cup {GMap(<< <<K1("x"), GPrim("s", "~")>>, <<K2("y", "z"), GPrim("n", "7")>> >>)}
